@@ -298,6 +298,9 @@ def _inst_props(inst, needs):
             decl = '%s REF %s%s' % (rc, p.name, arr)
         else:
             decl = '%s %s%s' % (p.type, p.name, arr)
+            if _CLASS_DEFAULTS[0]:
+                lit = _DEFAULT_LITERAL.get(p.type, '7')
+                decl += ' = %s' % ('{ %s }' % lit if p.is_array else lit)
         decls.append((p.name, decl))
     return decls
 
@@ -722,7 +725,33 @@ class V:
         self.expected, self.observed, self.text, self.calls = expected, observed, text, calls
 
 
+# the harness-written class of an instance declares every plain property either without default
+# or (second variant, instances only) with a non-NULL default: an explicit NULL (or any other
+# value) in the instance MOF must win over the class default
+_CLASS_DEFAULTS = [False]
+_DEFAULT_LITERAL = {'string': '"dflt"', 'char16': "'d'", 'boolean': 'true', 'real32': '1.5', 'real64': '1.5',
+                    'datetime': '"20200101000000.000000+000"'}
+
+
 def verdict(spec, maxline):
+    r = _verdict(spec, maxline)
+    if r.outcome == 'ok' and spec[0] == 'inst':
+        _CLASS_DEFAULTS[0] = True
+        try:
+            r2 = _verdict(spec, maxline)
+        finally:
+            _CLASS_DEFAULTS[0] = False
+        r2.calls += r.calls
+        if r2.what is not None:
+            r2.what = 'with-class-defaults:' + r2.what
+            return r2
+        if r2.outcome != 'ok':
+            raise HarnessError('class-default variant of %r: %s' % (spec, r2.outcome))
+        r.calls = r2.calls
+    return r
+
+
+def _verdict(spec, maxline):
     try:
         o = D.build(spec)
     except (ValueError, TypeError):
